@@ -56,6 +56,9 @@ pub struct Case {
     /// the one cell with a certificate made at run time (openssl CLI) that expires between two exchanges
     #[serde(default)]
     pub expiring: bool,
+    /// a certificate made at run time whose validity period starts two minutes from now
+    #[serde(default)]
+    pub not_yet_valid: bool,
 }
 
 pub struct C14;
@@ -99,9 +102,9 @@ pub fn all_cases() -> Vec<Case> {
                     for route in 0..3u8 {
                         for place in 0..5u8 {
                             for host_form in 0..2u8 {
-                                v.push(Case { cert, invalid_certs, invalid_hostnames, add_root, route, place, host_form, pin_leaf: false, withdraw: 0, prior: 0, expiring: false });
+                                v.push(Case { cert, invalid_certs, invalid_hostnames, add_root, route, place, host_form, pin_leaf: false, withdraw: 0, prior: 0, expiring: false, not_yet_valid: false });
                                 if add_root {
-                                    v.push(Case { cert, invalid_certs, invalid_hostnames, add_root, route, place, host_form, pin_leaf: true, withdraw: 0, prior: 0, expiring: false });
+                                    v.push(Case { cert, invalid_certs, invalid_hostnames, add_root, route, place, host_form, pin_leaf: true, withdraw: 0, prior: 0, expiring: false, not_yet_valid: false });
                                 }
                             }
                         }
@@ -117,7 +120,7 @@ pub fn all_cases() -> Vec<Case> {
                 for add_root in [false, true] {
                     for place in 0..5u8 {
                         for host_form in 0..2u8 {
-                            v.push(Case { cert, invalid_certs, invalid_hostnames, add_root, route: 3, place, host_form, pin_leaf: false, withdraw: 0, prior: 0, expiring: false });
+                            v.push(Case { cert, invalid_certs, invalid_hostnames, add_root, route: 3, place, host_form, pin_leaf: false, withdraw: 0, prior: 0, expiring: false, not_yet_valid: false });
                         }
                     }
                 }
@@ -130,7 +133,7 @@ pub fn all_cases() -> Vec<Case> {
             for add_root in [false, true] {
                 for place in 0..2u8 {
                     for host_form in 0..2u8 {
-                        v.push(Case { cert, invalid_certs, invalid_hostnames, add_root, route: 0, place, host_form, pin_leaf: false, withdraw, prior: 0, expiring: false });
+                        v.push(Case { cert, invalid_certs, invalid_hostnames, add_root, route: 0, place, host_form, pin_leaf: false, withdraw, prior: 0, expiring: false, not_yet_valid: false });
                     }
                 }
             }
@@ -142,20 +145,26 @@ pub fn all_cases() -> Vec<Case> {
             for route in [0u8, 1] {
                 for prior in [1u8, 2] {
                     for host_form in 0..2u8 {
-                        v.push(Case { cert, invalid_certs: false, invalid_hostnames: false, add_root, route, place: 0, host_form, pin_leaf: false, withdraw: 0, prior, expiring: false });
+                        v.push(Case { cert, invalid_certs: false, invalid_hostnames: false, add_root, route, place: 0, host_form, pin_leaf: false, withdraw: 0, prior, expiring: false, not_yet_valid: false });
                     }
                 }
             }
         }
     }
     // validity is judged at the time of each exchange
-    v.push(Case { cert: 0, invalid_certs: false, invalid_hostnames: false, add_root: true, route: 0, place: 0, host_form: 0, pin_leaf: false, withdraw: 0, prior: 0, expiring: true });
+    v.push(Case { cert: 0, invalid_certs: false, invalid_hostnames: false, add_root: true, route: 0, place: 0, host_form: 0, pin_leaf: false, withdraw: 0, prior: 0, expiring: true, not_yet_valid: false });
+    v.push(Case { cert: 0, invalid_certs: false, invalid_hostnames: false, add_root: true, route: 0, place: 0, host_form: 0, pin_leaf: false, withdraw: 0, prior: 0, expiring: false, not_yet_valid: true });
     v
 }
 
 /// A leaf for `localhost` / 127.0.0.1 signed by the fixture root that is valid from a minute ago until `secs` seconds from now;
 /// returns the path prefix of `<prefix>.pem` / `<prefix>.key` and the instant of expiry, or None when the openssl CLI cannot do it.
 fn make_expiring_leaf(secs: u64) -> Option<(String, std::time::SystemTime)> {
+    make_leaf(-60, secs as i64)
+}
+
+/// A leaf for `localhost` / 127.0.0.1 signed by the fixture root, valid from `from` to `to` seconds relative to now.
+fn make_leaf(from: i64, to: i64) -> Option<(String, std::time::SystemTime)> {
     use std::process::Command;
     let dir = std::env::temp_dir().join(format!("vcheck-c14-{}-{:?}", std::process::id(), std::thread::current().id()).replace(['(', ')'], ""));
     std::fs::create_dir_all(&dir).ok()?;
@@ -170,8 +179,9 @@ fn make_expiring_leaf(secs: u64) -> Option<(String, std::time::SystemTime)> {
         }
         Some(String::from_utf8_lossy(&out.stdout).trim().to_string())
     };
-    let end = now + std::time::Duration::from_secs(secs);
-    let (nb, na) = (fmt(now - std::time::Duration::from_secs(60))?, fmt(end)?);
+    let rel = |d: i64| if d >= 0 { now + std::time::Duration::from_secs(d as u64) } else { now - std::time::Duration::from_secs((-d) as u64) };
+    let end = rel(to);
+    let (nb, na) = (fmt(rel(from))?, fmt(end)?);
     let ok = |c: &mut Command| c.stdout(std::process::Stdio::null()).stderr(std::process::Stdio::null()).status().map(|s| s.success()).unwrap_or(false);
     if !ok(Command::new("openssl").args(["req", "-newkey", "rsa:2048", "-nodes", "-keyout", &p("leaf.key"), "-out", &p("leaf.csr"), "-subj", "/CN=expiring"])) {
         return None;
@@ -260,18 +270,45 @@ fn check_expiring(ctx: &mut Ctx) -> Outcome {
     }
 }
 
+/// A certificate whose validity period has not begun (it starts in two minutes) is not a valid certificate, however close the start is.
+fn check_not_yet_valid(ctx: &mut Ctx) -> Outcome {
+    ctx.nontrivial = true;
+    let Some((prefix, _)) = make_leaf(120, 86_400) else {
+        ctx.label("not-yet-valid-certificate:skipped(openssl CLI cannot make one)");
+        return Outcome::Pass;
+    };
+    ctx.label("not-yet-valid-certificate");
+    let name: &'static str = Box::leak(prefix.clone().into_boxed_str());
+    attohttpc::verif_hooks::set_resolver(Some(Box::new(move |d, p| if d == "localhost" { Some(vec![SocketAddr::from(([127, 0, 0, 1], p))]) } else { None })));
+    let mut peer = tls_server(name);
+    let port = peer.port();
+    let mut session = attohttpc::Session::new();
+    session.proxy_settings(attohttpc::ProxySettings::builder().build());
+    session.connect_timeout(std::time::Duration::from_secs(5));
+    session.read_timeout(std::time::Duration::from_secs(5));
+    session.add_root_certificate(anchor_cert("root"));
+    let r = session.get(format!("https://localhost:{port}/early")).send().and_then(|r| r.text_utf8());
+    peer.join();
+    attohttpc::verif_hooks::set_resolver(None);
+    let _ = std::fs::remove_dir_all(std::path::Path::new(&prefix).parent().unwrap());
+    match r {
+        Err(_) => Outcome::Pass,
+        Ok(_) => Outcome::fail(format!("C14:{}:not-yet-valid-accepted", backend()), format!("[{}] a certificate whose validity period starts two minutes from now was accepted with both danger flags off", backend())),
+    }
+}
+
 impl Property for C14 {
     type Case = Case;
     const ID: &'static str = "C14";
     const RULE: &'static str = "configuration matrix {chains to the added root, wrong name, self-signed, unknown issuer, expired, each with matching / differing name, valid for only one of the two names of the peer, self-signed CA:TRUE, the good chain served without its key} x accept_invalid_certs x accept_invalid_hostnames x root added {no, the CA, the presented certificate itself} x \
 route {direct https, inside a CONNECT tunnel through a plain proxy, https proxy presenting the certificate for an http origin and for a tunnelled https origin} x where the flags/root were set {session, this request, sibling request created before / after, session after the request was created} x \
-contacted host {localhost, 127.0.0.1}: 5953 cells per TLS backend (the product of 12 certificates, 192 cells in which a sibling request with a waiver is sent first, one cell with a certificate made at run time that expires between two exchanges, 800 for an https proxy that carries a CONNECT tunnel, 400 with a waiver given and then withdrawn on the request), each a real TLS handshake against a rustls server on a loopback socket; both tiers run all cells of both backends. Oracle = the truth table, both directions. \
+contacted host {localhost, 127.0.0.1}: 5955 cells per TLS backend (the product of 12 certificates, 192 cells in which a sibling request with a waiver is sent first, one cell with a certificate made at run time that expires between two exchanges, one with a certificate whose validity starts two minutes from now, 800 for an https proxy that carries a CONNECT tunnel, 400 with a waiver given and then withdrawn on the request), each a real TLS handshake against a rustls server on a loopback socket; both tiers run all cells of both backends. Oracle = the truth table, both directions. \
 non-trivial = at least one danger flag, an added root or a non-valid certificate; distinct by cell";
 
     fn assumptions() -> Vec<String> {
         vec![
             "the system trust store is replaced by a one-certificate stand-in (SSL_CERT_FILE) for native-tls and is the webpki-roots set for rustls; fixtures never chain to either, so only 'not trusted without the added root' is observable".into(),
-            "validity dates: long-expired (2000-2001) vs. 100-year certificates only".into(),
+            "validity dates: long-expired (2000-2001) vs. 100-year certificates, plus two run-time leaves (one that expires between two exchanges, one whose validity starts two minutes from now)".into(),
             "the name 'localhost' is mapped to 127.0.0.1 by the verif-hooks resolver override".into(),
             format!("this evidence was produced with the {} backend; ./check C14 runs the harness once per backend and merges", backend()),
         ]
@@ -318,11 +355,14 @@ non-trivial = at least one danger flag, an added root or a non-valid certificate
 
     fn strategy(_tier: Tier) -> BoxedStrategy<Case> {
         (0u8..CERTS.len() as u8, any::<bool>(), any::<bool>(), any::<bool>(), 0u8..3, 0u8..5, 0u8..2)
-            .prop_map(|(cert, invalid_certs, invalid_hostnames, add_root, route, place, host_form)| Case { cert, invalid_certs, invalid_hostnames, add_root, route, place, host_form, pin_leaf: false, withdraw: 0, prior: 0, expiring: false })
+            .prop_map(|(cert, invalid_certs, invalid_hostnames, add_root, route, place, host_form)| Case { cert, invalid_certs, invalid_hostnames, add_root, route, place, host_form, pin_leaf: false, withdraw: 0, prior: 0, expiring: false, not_yet_valid: false })
             .boxed()
     }
 
     fn check(case: &Case, ctx: &mut Ctx) -> Outcome {
+        if case.not_yet_valid {
+            return check_not_yet_valid(ctx);
+        }
         if case.expiring {
             return check_expiring(ctx);
         }
